@@ -3,6 +3,182 @@ import Mathlib.Algebra.Order.Field.Basic
 import TjdModel.Agg.Spec2
 import TjdLemmas.QPLemmas
 import TjdLemmas.FWLemmas
-namespace Tjd.Agg
+namespace Tjd.Agg.Cone
+open Tjd Tjd.Agg Matrix
+set_option linter.unusedSectionVars false
+set_option linter.unusedSimpArgs false
+set_option linter.unusedVariables false
 
-end Tjd.Agg
+variable {α : Type} [Field α] [LinearOrder α] [IsStrictOrderedRing α]
+
+/-! ### abstract statements on `Fin m → α` -/
+
+/-- variational inequality at a KKT point: `⟨Y - X, X - P⟩ ≥ 0` for every `Y` in the dual cone -/
+theorem kkt_variational {m n : Nat} (B : Matrix (Fin m) (Fin n) α) (fu fw : Fin m → α)
+    (Y : Fin n → α) (h1 : fu ≤ fw) (h3 : (fw - fu) ⬝ᵥ B *ᵥ (fw ᵥ* B) = 0) (hy : 0 ≤ B *ᵥ Y) :
+    0 ≤ (Y - fw ᵥ* B) ⬝ᵥ (fw ᵥ* B - fu ᵥ* B) := by
+  have e : fw ᵥ* B - fu ᵥ* B = (fw - fu) ᵥ* B := (sub_vecMul _ _ _).symm
+  rw [e, sub_dotProduct, dotProduct_comm Y, dotProduct_comm (fw ᵥ* B), ← dotProduct_mulVec,
+    ← dotProduct_mulVec, h3, sub_zero]
+  exact dotProduct_nonneg' _ _ (fun i => sub_nonneg.mpr (h1 i)) hy
+
+theorem sqdist_expand {n : Nat} (X P Y : Fin n → α) :
+    (Y - P) ⬝ᵥ (Y - P) =
+      (Y - X) ⬝ᵥ (Y - X) + 2 * ((Y - X) ⬝ᵥ (X - P)) + (X - P) ⬝ᵥ (X - P) := by
+  have e : Y - P = (Y - X) + (X - P) := (sub_add_sub_cancel Y X P).symm
+  rw [e, add_dotProduct, dotProduct_add, dotProduct_add, dotProduct_comm (X - P) (Y - X)]
+  ring
+
+theorem kkt_projection_fn {m n : Nat} (B : Matrix (Fin m) (Fin n) α) (fu fw : Fin m → α)
+    (Y : Fin n → α) (h1 : fu ≤ fw) (h3 : (fw - fu) ⬝ᵥ B *ᵥ (fw ᵥ* B) = 0) (hy : 0 ≤ B *ᵥ Y) :
+    (fw ᵥ* B - fu ᵥ* B) ⬝ᵥ (fw ᵥ* B - fu ᵥ* B) ≤ (Y - fu ᵥ* B) ⬝ᵥ (Y - fu ᵥ* B) := by
+  rw [sqdist_expand (fw ᵥ* B) (fu ᵥ* B) Y]
+  have h := kkt_variational B fu fw Y h1 h3 hy
+  have h' := dotProduct_self_nonneg' (Y - fw ᵥ* B)
+  linarith
+
+theorem dotProduct_self_eq_zero' {n : Nat} (f : Fin n → α) (h : f ⬝ᵥ f = 0) : f = 0 := by
+  by_contra hne
+  exact (dotProduct_self_pos' f hne).ne' h
+
+theorem kkt_unique_fn {m n : Nat} (B : Matrix (Fin m) (Fin n) α) (fu fw fw' : Fin m → α)
+    (h1 : fu ≤ fw) (h2 : 0 ≤ B *ᵥ (fw ᵥ* B)) (h3 : (fw - fu) ⬝ᵥ B *ᵥ (fw ᵥ* B) = 0)
+    (h1' : fu ≤ fw') (h2' : 0 ≤ B *ᵥ (fw' ᵥ* B)) (h3' : (fw' - fu) ⬝ᵥ B *ᵥ (fw' ᵥ* B) = 0) :
+    fw ᵥ* B = fw' ᵥ* B := by
+  have a := kkt_variational B fu fw (fw' ᵥ* B) h1 h3 h2'
+  have b := kkt_variational B fu fw' (fw ᵥ* B) h1' h3' h2
+  generalize fw ᵥ* B = X at *
+  generalize fw' ᵥ* B = X' at *
+  generalize fu ᵥ* B = P at *
+  have hz : (X - X') ⬝ᵥ (X - X') = 0 := by
+    have hn := dotProduct_self_nonneg' (X - X')
+    have e : (X - X') ⬝ᵥ (X - X') = -((X' - X) ⬝ᵥ (X - P) + (X - X') ⬝ᵥ (X' - P)) := by
+      simp only [sub_dotProduct, dotProduct_sub]
+      rw [dotProduct_comm X' X]
+      ring
+    linarith
+  exact sub_eq_zero.mp (dotProduct_self_eq_zero' _ hz)
+
+/-- generalised Cauchy–Schwarz for a symmetric PSD matrix -/
+theorem psd_cauchy_schwarz {m : Nat} (A : Matrix (Fin m) (Fin m) α) (hA : Aᵀ = A)
+    (hpsd : ∀ v : Fin m → α, 0 ≤ v ⬝ᵥ A *ᵥ v) (e w : Fin m → α) (hb : 0 < w ⬝ᵥ A *ᵥ w) :
+    (e ⬝ᵥ A *ᵥ w) * (e ⬝ᵥ A *ᵥ w) ≤ (e ⬝ᵥ A *ᵥ e) * (w ⬝ᵥ A *ᵥ w) := by
+  have h := hpsd ((w ⬝ᵥ A *ᵥ w) • e - (e ⬝ᵥ A *ᵥ w) • w)
+  simp only [mulVec_sub, mulVec_smul, sub_dotProduct, dotProduct_sub, smul_dotProduct,
+    dotProduct_smul, smul_eq_mul] at h
+  rw [qfF_symm A hA e w] at h
+  generalize e ⬝ᵥ A *ᵥ w = p at *
+  generalize e ⬝ᵥ A *ᵥ e = a at *
+  generalize w ⬝ᵥ A *ᵥ w = b at *
+  have h' : 0 ≤ b * (a * b - p * p) := by nlinarith
+  have := nonneg_of_mul_nonneg_right h' hb
+  linarith
+
+theorem cagrad_fn {m : Nat} (A : Matrix (Fin m) (Fin m) α) (hA : Aᵀ = A)
+    (hpsd : ∀ v : Fin m → α, 0 ≤ v ⬝ᵥ A *ᵥ v) (e w : Fin m → α) (c n0 nw : α) (hc : 1 ≤ c)
+    (hn0 : 0 ≤ n0) (hn0sq : n0 * n0 = e ⬝ᵥ A *ᵥ e) (hnw : 0 < nw) (hnwsq : nw * nw = w ⬝ᵥ A *ᵥ w) :
+    0 ≤ (A *ᵥ (e + (c * n0 / nw) • w)) ⬝ᵥ w := by
+  have hcs := psd_cauchy_schwarz A hA hpsd e w (by rw [← hnwsq]; exact mul_pos hnw hnw)
+  rw [dotProduct_comm, mulVec_add, mulVec_smul, dotProduct_add, dotProduct_smul, smul_eq_mul,
+    qfF_symm A hA e w, ← hnwsq]
+  rw [← hn0sq, ← hnwsq] at hcs
+  generalize e ⬝ᵥ A *ᵥ w = p at *
+  have hk : c * n0 / nw * (nw * nw) = c * n0 * nw := by field_simp
+  rw [hk]
+  have hprod : 0 ≤ n0 * nw := mul_nonneg hn0 hnw.le
+  have hp : -(n0 * nw) ≤ p := by
+    by_contra hlt
+    rw [not_le] at hlt
+    have : n0 * nw < -p := by linarith
+    have := mul_self_lt_mul_self hprod this
+    nlinarith
+  have : 0 ≤ (c - 1) * (n0 * nw) := mul_nonneg (sub_nonneg.mpr hc) hprod
+  nlinarith
+
+/-! ### list level -/
+
+/-- the Boolean KKT check for `gram J`, read on `Fin m → α` with `B = toMat m n J` -/
+theorem kkt_fn (J : Mat α) (m n : Nat) (hJ : MatWF J m n) (u w : Vec α) (hu : u.length = m)
+    (hk : kktCheck (gram J) u w = true) :
+    w.length = m ∧ toFn m u ≤ toFn m w ∧ 0 ≤ toMat m n J *ᵥ (toFn m w ᵥ* toMat m n J) ∧
+      (toFn m w - toFn m u) ⬝ᵥ toMat m n J *ᵥ (toFn m w ᵥ* toMat m n J) = 0 := by
+  obtain ⟨h1, _, h3, h4, h5⟩ := kktCheck_spec (gram J) u w hk
+  have hw : w.length = m := by omega
+  have hGw : toMat m m (gram J) *ᵥ toFn m w = toMat m n J *ᵥ (toFn m w ᵥ* toMat m n J) := by
+    rw [toMat_gram J m n hJ, ← mulVec_mulVec, mulVec_transpose]
+  refine ⟨hw, ((vle_iff m u w hu).mp h3).2, ?_, ?_⟩
+  · rw [← hGw, ← toFn_matVec m m _ w hw.le]
+    intro i
+    rw [toFn_apply, matVec_getD]
+    exact h4 i (by rw [hu]; exact i.2)
+  · rw [← hGw, ← toFn_matVec m m _ w hw.le, ← toFn_vsub m w u (by omega),
+      ← dot_eq_left m _ _ (by rw [vsub_length _ _ (by omega)]; omega)]
+    exact h5
+
+theorem dualcone_fn (J : Mat α) (m n : Nat) (hJ : MatWF J m n) (y : Vec α) (hy : y.length = n)
+    (h : ∀ i, i < J.length → 0 ≤ dot (J.getD i []) y) : 0 ≤ toMat m n J *ᵥ toFn n y := by
+  intro i
+  have := h i (by rw [hJ.1]; exact i.2)
+  rw [dot_eq_right n _ _ hy.le] at this
+  exact this
+
+theorem sqdist_fn (n : Nat) (x y : Vec α) (hx : x.length = n) (hy : y.length = n) :
+    dot (vsub x y) (vsub x y) = (toFn n x - toFn n y) ⬝ᵥ (toFn n x - toFn n y) := by
+  rw [dot_eq_left n _ _ (by rw [vsub_length _ _ (by omega)]; omega), toFn_vsub n x y (by omega)]
+
+theorem kkt_dualcone (J : Mat α) (m n : Nat) (hJ : MatWF J m n) (u w : Vec α) (hu : u.length = m)
+    (hk : kktCheck (gram J) u w = true) :
+    ∀ i, i < J.length → 0 ≤ dot (J.getD i []) (combine n J w) := by
+  obtain ⟨h1, _, _, h4, _⟩ := kktCheck_spec (gram J) u w hk
+  intro i hi
+  rw [← dot_gram_row J m n hJ i (by rw [← hJ.1]; exact hi) w (by omega)]
+  exact h4 i (by rw [hu, ← hJ.1]; exact hi)
+
+theorem kkt_projection (J : Mat α) (m n : Nat) (hJ : MatWF J m n) (u w : Vec α) (hu : u.length = m)
+    (hk : kktCheck (gram J) u w = true) (y : Vec α) (hy : y.length = n)
+    (hcone : ∀ i, i < J.length → 0 ≤ dot (J.getD i []) y) :
+    dot (vsub (combine n J w) (combine n J u)) (vsub (combine n J w) (combine n J u)) ≤
+      dot (vsub y (combine n J u)) (vsub y (combine n J u)) := by
+  obtain ⟨hw, k1, _, k3⟩ := kkt_fn J m n hJ u w hu hk
+  rw [sqdist_fn n _ _ (combine_length J m n hJ w) (combine_length J m n hJ u),
+    sqdist_fn n _ _ hy (combine_length J m n hJ u), toFn_combine J m n hJ w hw,
+    toFn_combine J m n hJ u hu]
+  exact kkt_projection_fn _ _ _ _ k1 k3 (dualcone_fn J m n hJ y hy hcone)
+
+theorem kkt_unique (J : Mat α) (m n : Nat) (hJ : MatWF J m n) (u w w' : Vec α) (hu : u.length = m)
+    (hk : kktCheck (gram J) u w = true) (hk' : kktCheck (gram J) u w' = true) :
+    combine n J w = combine n J w' := by
+  obtain ⟨hw, k1, k2, k3⟩ := kkt_fn J m n hJ u w hu hk
+  obtain ⟨hw', k1', k2', k3'⟩ := kkt_fn J m n hJ u w' hu hk'
+  apply toFn_injective n _ _ (combine_length J m n hJ w) (combine_length J m n hJ w')
+  rw [toFn_combine J m n hJ w hw, toFn_combine J m n hJ w' hw']
+  exact kkt_unique_fn _ _ _ _ k1 k2 k3 k1' k2' k3'
+
+/-! ### CAGrad -/
+
+theorem cagradWeights_length (m : Nat) (c n0 nw normEps : α) (w : Vec α) :
+    (cagradWeights m c n0 nw normEps w).length = m := by
+  unfold cagradWeights
+  split_ifs <;> simp [zeros]
+
+theorem toFn_cagradWeights (m : Nat) (c n0 nw normEps : α) (w : Vec α) (hge : normEps ≤ nw) :
+    toFn m (cagradWeights m c n0 nw normEps w) =
+      toFn m (List.replicate m (1 / (m : α))) + (c * n0 / nw) • toFn m w := by
+  unfold cagradWeights
+  rw [if_pos hge]
+  funext i
+  simp [toFn, List.getD_eq_getElem?_getD, List.getElem?_range i.2, List.getElem?_replicate]
+
+theorem cagrad_nonconflict (G : Mat α) (m : Nat) (hm : 0 < m) (hG : SymmSquare G m)
+    (hpsd : PosSemidef G m) (c n0 nw normEps : α) (hc : 1 ≤ c) (w : Vec α) (hw : w.length = m)
+    (hn0 : 0 ≤ n0) (hn0sq : n0 * n0 = qf G (List.replicate m (1 / (m : α))))
+    (hnw : 0 < nw) (hnwsq : nw * nw = qf G w) (hge : normEps ≤ nw) :
+    0 ≤ dot (matVec G (cagradWeights m c n0 nw normEps w)) w := by
+  rw [qf_eq m G _ (by simp)] at hn0sq
+  rw [qf_eq m G w hw.le] at hnwsq
+  rw [dot_eq_right m _ w hw.le,
+    toFn_matVec m m G _ (cagradWeights_length m c n0 nw normEps w).le,
+    toFn_cagradWeights m c n0 nw normEps w hge]
+  exact cagrad_fn _ (toMat_symm m G hG) (psd_fn m G hpsd) _ _ c n0 nw hc hn0 hn0sq hnw hnwsq
+
+end Tjd.Agg.Cone
